@@ -24,10 +24,12 @@ func runC14(c *Check, tier string) {
 	useFamily(c, "R14h", famStore, 20)
 	// an output check (and the command) fails when its last command fails
 	ruleWrapperStatus(c, "R14j")
+	// a declared expected_output of the wrong type is an error, not a check that compares nothing
+	ruleStarlarkFieldTypeErrors(c, "R14k")
 	shareRule(c, "R14i", "a non-nil execution error or any failed completion ends in a non-zero exit (same obligations as R05d)", 3, "R05d", func(sub *Check) { ruleR05d(sub, "R05d") }, nil)
 	// a timeout is a failure: the walker records every error but plain cancellation
 	if w := findWalker(c, "R14g"); w != nil {
-		shareRule(c, "R14g", "after the callback returned the node routine reports a completion on every path unless the error is context.Canceled (same obligation as R04c)", 1, "R04c", func(sub *Check) { ruleR04c(sub, w) }, func(k string) bool { return strings.Contains(k, "completion-on-every-exit") })
+		shareRule(c, "R14g", "after the callback returned the node routine reports a completion on every path unless the walk's own context is done (same obligation as R04c)", 1, "R04c", func(sub *Check) { ruleR04c(sub, w) }, func(k string) bool { return strings.Contains(k, "completion-on-every-exit") })
 	}
 }
 
